@@ -515,6 +515,14 @@ pub fn run_history(g: &Gillham, col: &mut Collector, h: &History, upto: usize) -
                 }
             }
         }
+        // cheap API invariants at every quiescent point
+        if planes.is_empty() != (planes.len() == 0) || planes.keys().count() != planes.len() || planes.iter().count() != planes.len() {
+            dis.push(vref::tracker::Disagreement { prop: "C12", clause: "container_views_disagree", detail: format!("len {} is_empty {} keys {} iter {}", planes.len(), planes.is_empty(), planes.keys().count(), planes.iter().count()) });
+        }
+        let ghost = ICAO([0xFE, 0xDC, 0xBA]);
+        if planes.get(ghost).is_none() && planes.aircraft_details(ghost).is_some() {
+            dis.push(vref::tracker::Disagreement { prop: "C14", clause: "details_iff", detail: "details returned for an address that is not tracked".into() });
+        }
         if !dis.is_empty() && first_bad.is_none() {
             first_bad = Some(idx);
         }
